@@ -358,7 +358,9 @@ def oracle(c, obs, present=frozenset()):
             bad.append(tag + f"{a} Arnoldi steps, more than min(max_iters, n) = {cap}")
         # the iteration may stop before the cap only when the remainder has fallen to tol*H[1,0]
         done = int(np.sum(np.abs(H).max(axis=0) > 0)) if m > 0 else 0
-        if 1 <= done < cap and sd[done - 1] > 2.0 * c["tol"] * sd[0] + 1e-6 * scale:
+        # (tol is relative to the size of the first Krylov vector: H[1,0] in the pinned code, ||A q_0|| in the repaired one; either is accepted)
+        aq0 = float(np.linalg.norm(S @ v) / np.linalg.norm(v))
+        if 1 <= done < cap and sd[done - 1] > 2.0 * c["tol"] * max(sd[0], aq0) + 1e-6 * scale:
             bad.append(tag + f"only {done} of min(max_iters,n)={cap} Arnoldi steps although the last remainder is {sd[done - 1]:.3g} "
                              f"(H[1,0]={sd[0]:.3g}, tol={c['tol']}): truncated factorisation, A Q[:, :m] = Q H fails")
         # orthonormality of the columns whose sub-diagonal entry exceeds the tolerance
